@@ -116,6 +116,15 @@ func c06drive(w *GsfaWriter, pushes []c06Push) error {
 		for _, a := range p.Addrs {
 			keys = append(keys, c06key(a))
 		}
+		// a transaction's account list may name an address more than once (it is a list, the entry is recorded once per
+		// address): every third push repeats its first address at the end (non-adjacent when there are >= 2 addresses),
+		// every seventh right after itself
+		if len(keys) > 0 && i%3 == 1 {
+			keys = append(keys, keys[0])
+		}
+		if len(keys) > 0 && i%7 == 3 {
+			keys = append(solana.PublicKeySlice{keys[0]}, keys...)
+		}
 		m, s, v := c06flags(i + 1)
 		if err := w.Push(p.E[0], p.E[1], p.E[2], keys, m, s, v); err != nil {
 			return err
